@@ -1790,6 +1790,15 @@ func runMarshalDet(c *core.Ctx, p *packages.Package, rel, src string) int {
 			}
 			q := core.QualName(core.CalleeObj(info, call))
 			con := fmt.Sprintf("%s.%s %s", rel, fnName(fd), clip(types.ExprString(call.Fun), 60))
+			// a message whose Go type holds no map anywhere (the plugin's response: names, contents, annotations) serialises
+			// the same way with or without the option
+			if strings.HasPrefix(q, "google.golang.org/protobuf/proto.Marshal") || strings.HasPrefix(q, "google.golang.org/protobuf/proto.MarshalOptions.Marshal") {
+				if len(call.Args) > 0 && !mayHoldMap(info.TypeOf(call.Args[len(call.Args)-1]), map[types.Type]bool{}) {
+					n++
+					c.Ok("T.det", con, "the marshalled message type holds no map field (nor extensions): its encoding does not depend on map iteration order", c.PosStr(p.Fset, call.Pos()), src)
+					return true
+				}
+			}
 			switch q {
 			case "google.golang.org/protobuf/proto.Marshal":
 				n++
@@ -1812,4 +1821,34 @@ func runMarshalDet(c *core.Ctx, p *packages.Package, rel, src string) int {
 		})
 	})
 	return n
+}
+
+// mayHoldMap: values of the type can contain a map (a map field, extension fields, or anything behind an interface).
+func mayHoldMap(t types.Type, seen map[types.Type]bool) bool {
+	if t == nil || seen[t] {
+		return false
+	}
+	seen[t] = true
+	switch u := t.Underlying().(type) {
+	case *types.Map, *types.Interface:
+		return true
+	case *types.Pointer:
+		return mayHoldMap(u.Elem(), seen)
+	case *types.Slice:
+		return mayHoldMap(u.Elem(), seen)
+	case *types.Array:
+		return mayHoldMap(u.Elem(), seen)
+	case *types.Struct:
+		for i := 0; i < u.NumFields(); i++ {
+			f := u.Field(i)
+			// protoimpl bookkeeping that never reaches the wire
+			if n := f.Name(); n == "state" || n == "sizeCache" || n == "unknownFields" {
+				continue
+			}
+			if mayHoldMap(f.Type(), seen) {
+				return true
+			}
+		}
+	}
+	return false
 }
